@@ -23,6 +23,7 @@ func init() {
 		c12WriterState(c)
 		clientCloseRule(c, "C12/CLIENT-CLOSE")
 		chanOpsRule(c, "C12/CHAN-OPS")
+		noPanicFor(c, "C12")
 	}
 }
 
